@@ -289,6 +289,23 @@ def cook(path, out, pressure, serial):
 HISTORIES = [("B_at_5atm_after_A_at_1atm", "B", 5.0), ("C_new_box_shapes_after_A", "C", 1.0)]
 
 
+def cook_interleaved(paths, out, second, pressure, serial):
+    """two Chefs alive at once: A (1 atm) is constructed, then X (another plotfile and/or pressure) is constructed,
+    then A is cooked; the observation is A's output"""
+    from amr_kitchen.chef import Chef
+    from . import c11
+    for o in (out, out + "_x"):
+        if os.path.isdir(o):
+            shutil.rmtree(o)
+
+    def go():
+        a = Chef(paths["A"], recipe="SDi", species=["H2"], outfile=out, mech=c11.MECH, pressure=1.0, serial=serial)
+        Chef(paths[second], recipe="SDi", species=["H2"], outfile=out + "_x", mech=c11.MECH, pressure=pressure, serial=serial)
+        a.cook()
+    st, val = call(go)
+    return [st, exc_text(val) if st == "exc" else None, tree_digest(out) if (st == "ok" and os.path.isdir(out)) else None]
+
+
 def run_history_case(case, workdir, rec):
     paths = history_inputs(workdir, case["seed"])
     out = os.path.join(workdir, "ck")
@@ -306,6 +323,21 @@ def run_history_case(case, workdir, rec):
         rec.outcome("chef_history_%s:%016x" % (hname, h64(serial)))
         if par != serial:
             rec.fail("history_dependent", {"history": hname}, "second cook differs from its serial result: %r vs %r" % (par, serial))
+        # the same pair of Chefs, but both constructed before the first one is cooked
+        sys.stdout = io.StringIO()
+        try:
+            alone = cook(paths["A"], out, 1.0, True)
+            inter_s = cook_interleaved(paths, out, second, pressure, True)
+            with vpool.controlled():
+                inter_p = cook_interleaved(paths, out, second, pressure, False)
+        finally:
+            sys.stdout = so
+        rec.exe(["chef_interleaved", hname], nontrivial=True, trans=2)
+        rec.outcome("chef_interleaved_%s:%016x" % (hname, h64(alone)))
+        for mode, got in (("serial", inter_s), ("parallel", inter_p)):
+            if got != alone:
+                rec.fail("history_dependent", {"history": "interleaved_" + hname, "mode": mode},
+                         "A cooked after X was constructed differs from A cooked alone: %r vs %r" % (got, alone))
     rec.sample({"history": "Chef(A, 1 atm, parallel).cook(); Chef(X, p, parallel).cook() in one process", "variants": [h[0] for h in HISTORIES]})
 
 
@@ -495,6 +527,10 @@ def parent_pass(tier, seed, workdir):
         par = cook(paths[second], os.path.join(workdir, "hX"), pressure, False)
         res.append({"outcome": "chef_history_%s:%016x" % (hname, h64(par)), "what": "chef history %s under the real pathos pool" % hname,
                     "obs": repr(par)[:200]})
+        _reset_pathos()
+        inter = cook_interleaved(paths, os.path.join(workdir, "hI"), second, pressure, False)
+        res.append({"outcome": "chef_interleaved_%s:%016x" % (hname, h64(inter)),
+                    "what": "A cooked after %s was constructed, under the real pathos pool" % second, "obs": repr(inter)[:200]})
     _reset_pathos()
     # (1b) two operations with a change of working directory in between, relative paths, REAL pools
     # (a pool that outlives the first operation keeps its workers' working directory)
